@@ -52,6 +52,13 @@ let () =
          | TBadUtf8 -> print_endline "BAD"
          | TFuel -> print_endline "FUEL"
          | TChildShort -> print_endline "SHORT")
+      | ["TD"; wstr; k; dstr; kind; inp] ->
+        (match foldfilter_cli2 (unh wstr) (k = "1") (unh dstr) (child kind) (unh inp) with
+         | CUsage -> print_endline "USAGE"
+         | CRun (TOk o) -> print_endline ("OK " ^ hx o)
+         | CRun TBadUtf8 -> print_endline "BAD"
+         | CRun TFuel -> print_endline "FUEL"
+         | CRun TChildShort -> print_endline "SHORT")
       | ["TW"; wstr; k; d; kind; inp] ->
         (match foldfilter_cli (unh wstr) (k = "1") (delims d) (child kind) (unh inp) with
          | CUsage -> print_endline "USAGE"
